@@ -101,7 +101,7 @@ def generate(rng, tier, mode="default"):
                 out.append([hdr()] + build("a", avals(n)) + ["a %s %s" % ("diter" if desc else "iter", " ".join(prog))] + probe()[:4] + ["END"])
     for n in range(4):
         for m in range(4):
-            for prog in iter_programs(n, 3 if quick else 4, False, True, m):
+            for prog in iter_programs(n, 4 if quick else 5, False, True, m):
                 out.append([hdr()] + build("a", avals(n)) + build("b", [20 + i for i in range(m)]) + ["a zip " + " ".join(prog)] + probe() + ["END"])
     # outside the contract (model predicts the crash / the error)
     for prog in ("r", "p5", "n r r", "n r p5", "n n r n r", "i", "n r i"):
